@@ -44,6 +44,13 @@ SHORT_ALARM_S = 2
 
 # availability matrix with an all-False row, batch_size=1: _n_to_assign_annotators did not terminate before repair
 # 6c5fda89 when the inner strategy picks sample 0 (kept as a regression case)
+# TypiClust returns -inf utilities (also at its picks): the wrapper then fails to rank the chosen sample first and
+# returns the pair (0, 0) twice while (1, 0), (1, 1) are still available
+NEG_INF_INNER = dict(
+    X=[[-1.75, 1.0], [2.0, -0.5], [1.5, 1.5], [-2.0, 0.0], [2.0, -0.5], [-1.25, 1.75]],
+    y=[[0, None], [1, None], [None, None], [None, None], [None, None], [None, None]], cmode="idx", amode="none",
+    candidates=[1, 4, 0], annotators=None, int_y=False, batch_size=5, naps=1, A_perf=None, seed=354488296,
+)
 MINIMAL_DIVERGENCE = dict(
     X=[[0.0, 1.0], [2.0, 3.0], [4.0, 5.0]], y=[[None, None], [None, None], [None, None]], cmode="none", amode="mat",
     candidates=None, annotators=[[False, False], [True, True], [True, True]], int_y=False, batch_size=1, naps=1,
@@ -570,14 +577,16 @@ def oracle(ctx, cls, prob, res, inner_name=None, selectable_only=False):
         c = res["inner_samples"]
         pref, pclass = documented_pref(prob["naps"], len(c))
         nmax = [sum(1 for (s, j) in pairs if s == cs) for cs in c]
-        if all(n >= p for n, p in zip(nmax, pref)) and sum(pref) >= k:
+        if res.get("inner_inf"):
+            ctx.count("naps_oracle_skipped_infinite_inner_utility")
+        elif all(n >= p for n, p in zip(nmax, pref)) and sum(pref) >= k:
             ctx.count("naps_oracle_applicable_" + pclass)
             left = k
-            exp = []
+            exp = {}
             for cs, p in zip(c, pref):
                 take = min(p, left)
                 if take:
-                    exp.append((cs, take))
+                    exp[cs] = take
                 left -= take
             groups = []        # consecutive same-sample groups of the returned pairs
             for (s, j) in got:
@@ -585,14 +594,22 @@ def oracle(ctx, cls, prob, res, inner_name=None, selectable_only=False):
                     groups[-1][1] += 1
                 else:
                     groups.append([s, 1])
-            groups = [(s, n) for s, n in groups]
-            if groups != exp:
+            cnt = {s: n for s, n in groups}
+            if len(cnt) != len(groups) or cnt != exp:
                 bad = (
                     "n-annotators-per-sample/" + pclass,
-                    f"annotators per ranked sample {groups}, requested {exp} (inner ranking {c}, "
+                    f"annotators per ranked sample {[tuple(g) for g in groups]}, requested {exp} (inner ranking {c}, "
                     f"n_annotators_per_sample={prob['naps']} -> documented preference {pref})",
                 )
-    if bad:
+    if bad and cls == "SingleAnnotatorWrapper" and res.get("inner_inf"):
+        # the inner strategy's utility at one of its picks is +-inf: `np.nanmax(row) + 1` is then not above the row
+        # and the chosen sample is not forced to the top rank (one root cause, several symptoms)
+        ctx.violate(
+            "C07/SingleAnnotatorWrapper._get_order_preserving_s_query/chosen-sample-not-top/inner-utilities-infinite",
+            f"{cls}.query ({inner_name}) with infinite inner utilities at the picks: {bad[1]}",
+            replay,
+        )
+    elif bad:
         ctx.violate(f"{keyb}/{bad[0]}", f"{cls}.query ({inner_name}): {bad[1]}", replay)
 
 
@@ -646,6 +663,9 @@ def wrapper_case(ctx, lines, expect, prob, inner_name, alarm_s=ALARM_S, short_al
                 if not (0 <= s < wu.shape[1]) or np.isnan(wu[t, s]) or (mapping is not None and s not in mapping):
                     ok = False
         res["inner_ok"] = bool(ok)
+        res["inner_inf"] = bool(ok and any(np.isinf(wu[t, s]) for t, s in enumerate(qs)))
+        if res["inner_inf"]:
+            ctx.count("inner_pick_utility_infinite_" + inner_name)
         if ok:
             res["inner_samples"] = [int(s) for s in qs]
             if spy["qa"] is not None:
@@ -827,6 +847,8 @@ def correspond(ctx):
     # sample 0 has no available annotator; RandomSampling(random_state=0) picks it first
     for seed in (0, 2):
         wrapper_case(ctx, lines, expect, dict(MINIMAL_DIVERGENCE, seed=seed), "RandomSampling")
+    # inner strategy with -inf utilities at its picks (run every time so the finding is seed independent)
+    wrapper_case(ctx, lines, expect, dict(NEG_INF_INNER), "TypiClust")
     if ctx.thorough:
         # control with the full 20 s alarm and no early re-arm
         wrapper_case(ctx, lines, expect, dict(MINIMAL_DIVERGENCE, seed=0, A_perf=[0.0, 1.0]), "RandomSampling", short_alarm=False)
